@@ -249,7 +249,7 @@ impl Property for C06 {
         }
         let used = used_ids(&inst);
         // 1..8 sample ids (the property's range); deep thorough cases go up to 40
-        let n = 1 + rng.usize_below(if self_tier_thorough && case_k % 8 == 5 { 40 } else { 8 });
+        let n = 1 + rng.usize_below(if self_tier_thorough && is_deep_case(case_k) { 40 } else { 8 });
         let ids = sample_ids(rng, n);
         let nstates = 1 + rng.usize_below(n);
         let omit_irrelevant = rng.chance(1, 3);
